@@ -26,6 +26,10 @@
 (*                TRUE : deviation "retry while clone fails with EAGAIN" - with a failure that  *)
 (*                       persists (p \in FailClone means EVERY attempt for p fails) spawn      *)
 (*                       never returns: JoinTerminates (<> H done, fairness of H) is violated   *)
+(*   PanicTakesLock FALSE: current tree: the panic handler of a spawned thread takes no lock    *)
+(*                TRUE : deviation (e.g. eprintln! in the handler): a thread in PanicHoldsLock  *)
+(*                       blocks for ever at the start of the handler - it never exits, join     *)
+(*                       never returns (deadlock / JoinTerminates)                              *)
 (*   MmapFirst    TRUE : stack mapped before anything is allocated                           *)
 (*                FALSE: pinned tree: join block + boxed closure allocated first, `?` on mmap*)
 (*   DropResult   TRUE : whoever frees the join block of a dropped handle drops a stored     *)
@@ -41,7 +45,10 @@ CONSTANTS NT,          \* number of threads
           Spurious,    \* budget of spurious futex returns
           FailMmap,    \* set of threads whose stack mmap fails
           FailClone,   \* set of threads whose clone fails
-          RecheckWord, RecheckDrop, CheckClone, RetryClone, MmapFirst, DropResult, KernelAtomic
+          RecheckWord, RecheckDrop, CheckClone, RetryClone, MmapFirst, DropResult, KernelAtomic,
+          PanicHoldsLock, \* environment: threads whose closure panics while holding a user-level lock
+                          \* (a print lock of tiny-std, a Mutex): with no unwinding it is never released
+          PanicTakesLock  \* deviation: the panic handler of a spawned thread acquires such a lock
 
 Threads == 1..NT
 RS == {"none", "live", "freed"}
@@ -319,6 +326,8 @@ FreeTls(p) ==    \* 15: dealloc(tls); the emptied Box<closure> is freed when df 
 
 PanicFreeTls(p) ==  \* 20: panic handler: dealloc(tls) (the closure box is never freed)
     /\ tpc[p] = "20"
+    \* PanicTakesPrintLock: a handler that first acquires a lock the panicking closure may hold waits for ever
+    /\ ~(PanicTakesLock /\ p \in PanicHoldsLock)
     /\ bad' = bad \cup FreeOf("tls", tls[p], p)
     /\ tls' = [tls EXCEPT ![p] = "freed"]
     /\ tpc' = [tpc EXCEPT ![p] = "21"]
